@@ -1,6 +1,8 @@
 package main
 
 import (
+	"regexp"
+	"strconv"
 	"fmt"
 	"go/ast"
 	"go/types"
@@ -66,25 +68,90 @@ type Verifier struct {
 	rangeMap0     *MapObj
 	allocMark     int64
 	curWrites     map[string]bool
+	curWriteFields map[string]bool // "<cell>#<field or -1>"
 }
 
 func (v *Verifier) note(s string) { v.notes[s] = true }
 
 // writes to cells that existed before the activation under verification (for frame clauses)
-func (v *Verifier) noteWrite(h *Term) {
+func (v *Verifier) noteWrite(h *Term) { v.noteWriteP(Ptr{H: h}) }
+
+func (v *Verifier) preexisting(h *Term) bool {
 	if h.IsInt() && h.I.Int64() > v.allocMark {
-		isGlobal := false
 		for _, gh := range v.globals {
 			if gh.String() == h.String() {
-				isGlobal = true
+				return true
 			}
 		}
-		if !isGlobal {
-			return // allocated by this activation
+		return false // allocated by this activation
+	}
+	return true
+}
+
+// handles that stand for objects the activation obtained itself: results of contract-applied calls
+// (X.rN!id) and pointer values havocked at a loop cut (hv!, hve!, hvf.f!, phi.x!) - the latter are
+// assumed to be memory allocated inside the loop (append targets), and the new targets of pointer
+// fields a callee declared modified (mod.x.f!) - all documented assumptions
+var callResultHandle = regexp.MustCompile(`^([A-Za-z0-9_.$()*]+\.r[0-9]+|hv|hve|hvs|hvm|hvf\.[A-Za-z0-9_]+|phi\.[A-Za-z0-9_]*|mod\.[A-Za-z0-9_.()*]+)![0-9]+$`)
+
+// exemptHandle: the handle, or the object it is reached from through field accessors only, is one of those
+func exemptHandle(k string) bool {
+	k = strings.TrimRight(k, ")")
+	if i := strings.LastIndexAny(k, " ("); i >= 0 {
+		k = k[i+1:]
+	}
+	return callResultHandle.MatchString(k)
+}
+
+func (v *Verifier) noteWriteP(p Ptr) {
+	if v.curWrites == nil || !v.preexisting(p.H) {
+		return
+	}
+	if exemptHandle(p.H.String()) {
+		// an object first obtained as the result of a contract-applied call (constructor results such
+		// as backoff.New, time.NewTicker): treated as not visible to this function's caller (assumption)
+		return
+	}
+	v.curWrites[p.H.String()] = true
+	if os.Getenv("GOVC_DEBUG") == "writes" {
+		fmt.Fprintf(os.Stderr, "write %s (IsInt %v) allocMark %d\n", p.H, p.H.IsInt(), v.allocMark)
+	}
+	h := p.H
+	for h.Op == "ite" && len(h.Args) == 3 && h.Args[2].IsInt() && h.Args[2].I.Sign() == 0 {
+		h = h.Args[1] // a write through the nil alternative would have panicked
+	}
+	v.curWriteFields[h.String()+"#"+fieldPath(p)] = true
+}
+
+// fieldPath: the chain of struct-field indices a pointer path starts with ("" = the whole cell)
+func fieldPath(p Ptr) string {
+	var parts []string
+	for _, el := range p.Path {
+		if el.Index != nil {
+			break
+		}
+		parts = append(parts, strconv.Itoa(el.Field))
+	}
+	return strings.Join(parts, ".")
+}
+
+func (v *Verifier) noteWriteKey(key string, fld int) {
+	if v.curWrites == nil {
+		return
+	}
+	if n, err := strconv.ParseInt(key, 10, 64); err == nil {
+		if !v.preexisting(Int(n)) {
+			return
 		}
 	}
-	if v.curWrites != nil {
-		v.curWrites[h.String()] = true
+	if exemptHandle(key) {
+		return
+	}
+	v.curWrites[key] = true
+	if fld < 0 {
+		v.curWriteFields[key+"#"] = true
+	} else {
+		v.curWriteFields[fmt.Sprintf("%s#%d", key, fld)] = true
 	}
 }
 
@@ -249,6 +316,9 @@ func (v *Verifier) findFunc(ctr *Contract) *ssa.Function {
 
 func (v *Verifier) initGhosts(st *State, env *Env) {
 	for _, g := range v.cs.Ghosts {
+		allGhosts[g.Name] = true
+	}
+	for _, g := range v.cs.Ghosts {
 		var val Value
 		switch g.Type {
 		case "int":
@@ -333,8 +403,10 @@ func (v *Verifier) verifyFunc(ctr *Contract, fn *ssa.Function) (err error) {
 	fr.entry = st.clone()
 	v.allocMark = 1000 + v.eng.nalloc
 	v.curWrites = map[string]bool{}
+	v.curWriteFields = map[string]bool{}
 	fr.enter(st, fn.Blocks[0], nil)
 	v.pathsPerFn[ctr.Key] = len(outs)
+	v.heapFrame(fr, ctr)
 	nret := 0
 	for _, o := range outs {
 		if o.St.dead {
@@ -364,19 +436,28 @@ func (v *Verifier) verifyFunc(ctr *Contract, fn *ssa.Function) (err error) {
 		lfr.env, lfr.envAddr = o.Env, o.EnvAddr
 		lenv := &Env{fr: &lfr, st: o.St, old: fr.entry, vars: vars, callRes: o.St.callRes, callArgs: o.St.callArgs}
 		// ghost frame: a function that declares modifies leaves every other ghost variable unchanged
-		if hasMod, listed := ghostModifies(ctr); hasMod && ctr.hasProp(v.prop) {
+		if _, listed := ghostModifies(ctr); ctr.hasProp(v.prop) {
 			var cs []*Term
+			var changed []string
 			for _, g := range v.cs.Ghosts {
 				if listed[g.Name] {
 					continue
 				}
 				if a, ok := o.St.ghost[g.Name]; ok {
 					if b, ok := fr.entry.ghost[g.Name]; ok {
-						cs = append(cs, o.St.valueEq(a, b))
+						eq := o.St.valueEq(a, b)
+						if !eq.IsTrue() {
+							changed = append(changed, g.Name)
+						}
+						cs = append(cs, eq)
 					}
 				}
 			}
-			v.emit(fr, o.St, "frame", "frame/ghost", And(cs...), "ghost variables outside the modifies clause are unchanged")
+			what := "ghost variables outside the modifies clause are unchanged"
+			if len(changed) > 0 {
+				what += " (possibly written on this path: ghost." + strings.Join(changed, ", ghost.") + ")"
+			}
+			v.emit(fr, o.St, "frame", "frame/ghost", And(cs...), what)
 		}
 		for _, cl := range ctr.Clauses {
 			if cl.Kind == "plet" {
@@ -620,6 +701,107 @@ func (v *Verifier) checkPkgInits(pkgPath string) {
 	}
 }
 
+// heapFrame: every cell (field) that existed before the call and was written on some explored path
+// must be covered by a modifies clause of the contract - callers rely on everything else being
+// unchanged. The allowed set is computed by applying the modifies clauses to a copy of the entry state.
+func (v *Verifier) heapFrame(fr *Frame, ctr *Contract) {
+	if !ctr.hasProp(v.prop) {
+		return
+	}
+	written := v.curWriteFields
+	wAll := v.curWrites
+	allowed := map[string]bool{}
+	heapAll := false
+	v.curWrites, v.curWriteFields = map[string]bool{}, allowed
+	func() {
+		defer func() {
+			if r := recover(); r != nil {
+				ee, ok := r.(execErr)
+				if !ok {
+					panic(r)
+				}
+				v.note("heap frame of " + ctr.Key + ": a modifies clause could not be evaluated in the entry state: " + ee.msg)
+			}
+		}()
+		tmp := fr.entry.clone()
+		env := &Env{fr: fr, st: tmp, old: fr.entry, vars: fr.vars, noLocals: true}
+		wasVerifying := v.verifying
+		v.verifying = false
+		for _, cl := range ctr.Clauses {
+			if cl.Kind != "modifies" {
+				continue
+			}
+			for _, e := range cl.Exprs {
+				if se, ok := e.(*ast.SelectorExpr); ok {
+					if id, ok := se.X.(*ast.Ident); ok && id.Name == "heap" && se.Sel.Name == "all" {
+						heapAll = true
+						continue
+					}
+					if id, ok := se.X.(*ast.Ident); ok && id.Name == "ghost" {
+						continue
+					}
+				}
+				env.havocLvalue(e)
+			}
+		}
+		v.verifying = wasVerifying
+	}()
+	v.curWrites, v.curWriteFields = wAll, written
+	var bad []string
+	for k := range written {
+		cell := k[:strings.LastIndex(k, "#")]
+		wp := k[len(cell)+1:]
+		ok := heapAll
+		for a := range allowed {
+			if ok {
+				break
+			}
+			if !strings.HasPrefix(a, cell+"#") || strings.LastIndex(a, "#") != len(cell) {
+				continue
+			}
+			ap := a[len(cell)+1:]
+			if ap == "" || ap == wp || strings.HasPrefix(wp, ap+".") {
+				ok = true
+			}
+		}
+		// ownership convention: 'modifies <map>' covers the objects stored in that map as well (a value
+		// looked up in it); at call sites the havocked map yields fresh, unconstrained values
+		for a := range allowed {
+			if ok {
+				break
+			}
+			if strings.HasSuffix(a, "#") && strings.Contains(cell, "(map.get_Int "+a[:len(a)-1]+" ") {
+				ok = true
+			}
+		}
+		if ok {
+			continue
+		}
+		for g, gh := range v.globals {
+			if gh.String() == cell {
+				k = "global " + g.Pkg.Pkg.Name() + "." + g.Name() + k[len(cell):]
+			}
+		}
+		bad = append(bad, k)
+	}
+	sort.Strings(bad)
+	goal := True
+	what := "cells that existed before the call are written only where a modifies clause allows it"
+	if len(bad) > 0 {
+		goal = False
+		if len(bad) > 6 {
+			bad = append(bad[:6], "...")
+		}
+		what += "; written without a modifies clause (<cell>#<field>): " + strings.Join(bad, ", ")
+	}
+	o := &Obligation{Prop: v.prop, Func: v.curFn, Clause: "frame/heap", Kind: "frame", Goal: goal, What: what}
+	o.Assumps = append([]*Term{}, fr.entry.pc...)
+	v.obls = append(v.obls, o)
+}
+
+// allGhosts: the wildcard 'modifies ghost.all' (set in Verifier setup)
+var allGhosts = map[string]bool{}
+
 func ghostModifies(ctr *Contract) (bool, map[string]bool) {
 	listed := map[string]bool{}
 	has := false
@@ -632,6 +814,9 @@ func ghostModifies(ctr *Contract) (bool, map[string]bool) {
 			if se, ok := e.(*ast.SelectorExpr); ok {
 				if id, ok := se.X.(*ast.Ident); ok && id.Name == "ghost" {
 					listed[se.Sel.Name] = true
+					if se.Sel.Name == "all" {
+						return true, allGhosts
+					}
 				}
 			}
 		}
